@@ -140,6 +140,10 @@ class Ctx:
     def n(self, quick, thorough):
         """Number of examples for this shard in this tier."""
         scale = float(os.environ.get("VERIF_SCALE", "1"))
+        if self.tier == "thorough":
+            # the thorough tier runs three times the case counts written in the checks (about five hours for all
+            # twenty properties on 16 cores); the wall-clock valve still only ever drops remaining cases
+            scale *= float(os.environ.get("VERIF_THOROUGH_SCALE", "3"))
         return max(1, int((quick if self.tier == "quick" else thorough) * scale))
 
     # ---- bookkeeping
@@ -205,7 +209,7 @@ class Ctx:
         if shrink_s is None:
             shrink_s = 25 if self.tier == "quick" else 240
         if budget_s is None:
-            budget_s = float(os.environ.get("VERIF_BUDGET_S", 150 if self.tier == "quick" else 3000))
+            budget_s = float(os.environ.get("VERIF_BUDGET_S", 150 if self.tier == "quick" else 6000))
         state = {"best": None, "best_v": None, "first_fail_t": None, "stopped": 0}
         t_start = time.time()
 
@@ -261,7 +265,7 @@ class Ctx:
         if shrink_s is None:
             shrink_s = 30 if self.tier == "quick" else 240
         if budget_s is None:
-            budget_s = float(os.environ.get("VERIF_BUDGET_S", 150 if self.tier == "quick" else 3000))
+            budget_s = float(os.environ.get("VERIF_BUDGET_S", 150 if self.tier == "quick" else 6000))
         state = {"best": None, "best_v": None, "first_fail_t": None, "t_start": time.time(), "shrink_s": shrink_s,
                  "budget_s": budget_s, "name": name}
         Machine = make_machine(self, state)
